@@ -495,6 +495,12 @@ func (g *Gen) genericMapOp() *Op {
 	op := &Op{GN: n, GRel: rel}
 	withRel := rel && R.Chance(0.7)
 	op.GWithRel = withRel
+	if !rel && r0 >= 0 && R.Chance(0.3) {
+		// a mapper declared with a relation component that is not one of its own components (meant for targets of
+		// entities that have the relation already); used here without targets, where the declaration must not matter
+		op.GWithRel = true
+		s.Cov.N["generic_mapper_with_foreign_relation"]++
+	}
 	hasAny := func(me *MEnt) bool {
 		for _, id := range ids {
 			if _, ok := me.Comps[id]; ok {
